@@ -6,6 +6,8 @@ use std::num::ParseIntError;
 //@include prelude/lit_spec.rs
 //@include prelude/lit_env.rs
 //@include prelude/lit_lemmas.rs
+//@verify parse.parse_unicode_hex
+//@verify parse.parse_unicode_oct
 //@verify parse.parse_raw_string
 //@verify parse.parse_quoted_string
 //@verify parse.parse_string
